@@ -54,7 +54,7 @@ def run(ctx):
                                 "this": {"k": "ref", "decl": "param:" + pname}, "args": [], "type": "bool"})
         dirty = ("a", "this.dirty_")
         # the count read: given() inlined or the member
-        G = ("a", "(this.given() != 0)")
+        G = ("a", "(this.given_ != 0)")
         writes = []
         for bid, i, e in uv.roots():
             if bid not in IN:
